@@ -479,6 +479,38 @@ func genC03(r *rand.Rand, n int, exhaustive bool, out func(J), next func() int) 
 		}
 		out(tag(run(Spec{Graphs: gs, Query: q.text()}, false), "bounds", next()))
 	}
+	// (3c) every driver shape (which of S, P, O are constants) on a temporal triple of the data, under a global bound
+	for i := 0; i < n/10; i++ {
+		gs = graphsFor(r, 1+r.Intn(2), 10+r.Intn(12))
+		var a *anchorT
+		for k := 0; k < 20; k++ {
+			a = anchorOf(r, gs)
+			if a != nil && !strings.HasSuffix(a.p, "@[]") {
+				break
+			}
+		}
+		if a == nil {
+			continue
+		}
+		mask := i % 8
+		sT, pT, oT := "?s", "?p", "?o"
+		if mask&1 != 0 {
+			sT = a.s
+		}
+		if mask&2 != 0 {
+			pT = a.p
+		}
+		if mask&4 != 0 {
+			oT = a.o
+		}
+		if mask == 7 {
+			oT += " AS ?o" // a fully specified clause needs an alias to produce a row
+			if objKind(a.o) == 'L' || objKind(a.o) == 'Q' || objKind(a.o) == 'N' {
+			}
+		}
+		q := query{clauses: []string{sT + " " + pT + " " + oT}, optional: []bool{false}, from: len(gs), tail: pick(r, tails)}
+		out(tag(run(Spec{Graphs: gs, Query: q.text()}, false), "shapes", next()))
+	}
 	// (4) malformed stream: statements the front end must reject
 	bad := []string{
 		"SELECT ?nope FROM ?g0 WHERE { ?s ?p ?o };",
